@@ -67,7 +67,9 @@ def execute(program):
         except sessmachine.Abort:
             return None, dict(stats, aborted=1)
         traces[name] = h.obs
-        builds[name] = [t for t in h.trace]
+        # the handle -> primary key assignment belongs to the build: objects created in one flush get their automatic ids
+        # in an order that depends on object addresses, so two builds may number them differently (not comparable then)
+        builds[name] = [t for t in h.trace] + [sorted((hh, repr(o.get('pk'))) for hh, o in h.model.cur.objs.items())]
         for k, v in stats.items():
             stats_all[k] = stats_all.get(k, 0) + v
     if any(b != builds['default'] for b in builds.values()):
